@@ -124,6 +124,11 @@ def sameWorkspace(link, sharePath):
     except OSError as e:
         raise BuildError("Error inspecting workspace: " + str(e))
 
+def loadRepoMeta(f):
+    """Load repo.json. The file is still empty while it is being created."""
+    data = f.read()
+    return json.loads(data) if data else {}
+
 def checkUnused(pkgMeta, pkgPath):
     pkgWorkspace = os.path.join(pkgPath, "workspace")
     return all((not sameWorkspace(user, pkgWorkspace)) for user in pkgMeta.get("users", []))
@@ -179,7 +184,7 @@ class LocalShare:
 
     def __addPackage(self, buildId, size):
         def update(f):
-            meta = json.load(f)
+            meta = loadRepoMeta(f)
             meta.setdefault("pkgs", {})[asHexStr(buildId)] = size
             f.seek(0)
             f.truncate()
@@ -196,15 +201,16 @@ class LocalShare:
                 with OpenLocked(fn, "r+", True) as f:
                     return update(f)
             except FileNotFoundError:
-                # Unusual case: does not exist yet -> create atomically.
+                # Unusual case: does not exist yet -> create (we might lose
+                # the race) and update with lock. The file cannot be locked
+                # before it is visible to others. They see an empty file.
                 try:
-                    with OpenLocked(fn, "x", True) as f:
-                        json.dump({"pkgs" : {asHexStr(buildId) : size}}, f)
-                        return size
+                    with open(fn, "x"):
+                        pass
                 except FileExistsError:
-                    # Almost impossible case: lost creation race -> update
-                    with OpenLocked(fn, "r+", True) as f:
-                        return update(f)
+                    pass
+                with OpenLocked(fn, "r+", True) as f:
+                    return update(f)
         except OSError as e:
             raise BuildError("Error updating shared repo: "+str(e))
 
@@ -330,7 +336,7 @@ class LocalShare:
             # and usage of packages.
             candidates = []
             with OpenLocked(os.path.join(self.__path, "repo.json"), "r+", True) as rf:
-                repoMeta = json.load(rf)
+                repoMeta = loadRepoMeta(rf)
 
                 # Scan all packages
                 for pkg, size in repoMeta.get("pkgs", {}).items():
